@@ -149,7 +149,9 @@ impl Ord for Number {
         if self.value < other.value {
             Ordering::Less
         } else if self.value == other.value {
-            Ordering::Equal
+            // Equal magnitudes are only the same number if the units are the same
+            let unit_ids = |num: &Number| num.unit.map(|unit| &unit.ids);
+            unit_ids(self).cmp(&unit_ids(other))
         } else {
             Ordering::Greater
         }
